@@ -34,6 +34,15 @@ impl Future for PendingOnce {
 
 type Log = Rc<RefCell<Vec<(usize, u64)>>>;
 
+thread_local! {
+    /// true: every task emits the same event value (events must still come back once each, none merged)
+    static UNIFORM_EVENTS: std::cell::Cell<bool> = std::cell::Cell::new(false);
+}
+
+fn event_value(id: usize, k: usize) -> u32 {
+    if UNIFORM_EVENTS.with(|u| u.get()) { 7 } else { (id * 16 + k) as u32 }
+}
+
 async fn task(id: usize, script: Vec<Step>, log: Log) {
     for (k, st) in script.iter().enumerate() {
         match *st {
@@ -41,7 +50,7 @@ async fn task(id: usize, script: Vec<Step>, log: Log) {
                 sleep_cycles(d).await;
                 log.borrow_mut().push((id, current_cycle()));
                 if emit {
-                    emit_event(DriverEvent::User((id * 16 + k) as u32));
+                    emit_event(DriverEvent::User(event_value(id, k)));
                 }
             }
             Step::Pend => {
@@ -70,7 +79,7 @@ fn reference(tasks: &[Vec<Step>], c0: u64) -> (Vec<(usize, u64)>, Vec<u32>) {
             // the step the task was waiting on completes now
             log.push((i, c));
             if let Step::Sleep(_, true) = script[pc[i]] {
-                events.push((i * 16 + pc[i]) as u32);
+                events.push(event_value(i, pc[i]));
             }
             pc[i] += 1;
         } else {
@@ -94,6 +103,22 @@ pub struct RunOutcome {
 }
 
 pub fn run_case(tasks: &[Vec<Step>], budgets: &[u64], c0: u64) -> RunOutcome {
+    // distinct event values first, then the same value for every event
+    UNIFORM_EVENTS.with(|u| u.set(false));
+    let a = run_case_mode(tasks, budgets, c0);
+    if a.violation.is_some() || !tasks.iter().flatten().any(|s| matches!(s, Step::Sleep(_, true))) {
+        return a;
+    }
+    UNIFORM_EVENTS.with(|u| u.set(true));
+    let mut b = run_case_mode(tasks, budgets, c0);
+    UNIFORM_EVENTS.with(|u| u.set(false));
+    if let Some((k, w)) = b.violation.take() {
+        b.violation = Some((format!("{k}/equal-event-values"), format!("[all events carry the same value] {w}")));
+    }
+    b
+}
+
+fn run_case_mode(tasks: &[Vec<Step>], budgets: &[u64], c0: u64) -> RunOutcome {
     let (ref_log, ref_events) = reference(tasks, c0);
     let log: Log = Rc::new(RefCell::new(Vec::new()));
     let mut driver = if c0 == 0 { AsyncDriver::new() } else { AsyncDriver::with_clock(c0) };
